@@ -949,6 +949,9 @@ fc_statements = [
         name="c_char_*_result_buf_allocatable",
         buf_args=["context"],
         c_helper="ShroudTypeDefines",
+        # strlen is used in post_call.
+        c_impl_header=["<string.h>"],
+        cxx_impl_header=["<cstring>"],
         # Copy address of result into c_var and save length.
         # When returning a std::string (and not a reference or pointer)
         # an intermediate object is created to save the results
